@@ -13,6 +13,7 @@ import (
 	"testing"
 	"time"
 
+	"github.com/hashicorp/go-msgpack/v2/codec"
 	"github.com/hashicorp/serf/cmd/serf/command/agent"
 	"pgregory.net/rapid"
 
@@ -33,6 +34,10 @@ type c30KV struct {
 	K   string `json:"k"`
 	V   string `json:"v"`
 	Pad int    `json:"pad,omitempty"` // value is V followed by Pad filler bytes
+	// Fit, when non-zero, replaces Pad at run time: the value is padded so
+	// that the tags resulting from the edit encode to exactly limit+Fit-100
+	// bytes (100 = exactly at the limit)
+	Fit int `json:"fit,omitempty"`
 }
 
 func (kv c30KV) value() string { return kv.V + strings.Repeat("x", kv.Pad) }
@@ -40,15 +45,27 @@ func (kv c30KV) value() string { return kv.V + strings.Repeat("x", kv.Pad) }
 type c30Edit struct {
 	Set []c30KV  `json:"set"`
 	Del []string `json:"del"`
+	// Rep: how an empty Tags / DeleteTags field travels: 0 as an empty map /
+	// list, 1 left out of the request, 2 as an explicit nil
+	Rep int `json:"rep,omitempty"`
+	// Restart: the agent is stopped and started again on the same tags file
+	// before this edit (a real next start, not only the loader)
+	Restart bool `json:"restart,omitempty"`
 }
 
 type c30Case struct {
 	File  bool      `json:"file"`
 	Init  []c30KV   `json:"init"`
 	Edits []c30Edit `json:"edits"`
+	// EmptyFile: what the tags file holds at the first start when there are no
+	// initial tags: 0 no file, 1 "{}", 2 "null", 3 "{}" plus a newline
+	EmptyFile int `json:"empty_file,omitempty"`
 }
 
-var c30Keys = []string{"role", "dc", "a", "b", "", "ключ", "k<>&\"'", "with space", "emoji😀", "x=y", "nul\x00key"}
+// keys: next to plain and awkward ones, the same word in another case and
+// proper prefixes / extensions of another key (a delete must hit exactly one)
+var c30Keys = []string{"role", "dc", "a", "b", "", "ключ", "k<>&\"'", "with space", "emoji😀", "x=y", "nul\x00key",
+	"Role", "ROLE", "rol", "role2", "dc", "role", "ab", "A"}
 var c30Vals = []string{"", "1", "web", "true", "<b>&amp;</b>", "\"quoted\"", "line\nbreak", "日本語", "a,b=c", " sep", "\\back\\slash"}
 
 func genC30KV(t *rapid.T, allowBig bool) c30KV {
@@ -68,6 +85,9 @@ func genC30KV(t *rapid.T, allowBig bool) c30KV {
 	}
 	if allowBig && rapid.IntRange(0, 3).Draw(t, "big") == 0 {
 		kv.Pad = rapid.SampledFrom([]int{100, 200, 250, 300, 400, 450, 470, 480, 490, 495, 500, 505, 510, 520, 600, 2000}).Draw(t, "pad")
+		if rapid.IntRange(0, 2).Draw(t, "fit") == 0 {
+			kv.Fit = 100 + rapid.SampledFrom([]int{0, 0, 1, -1, 2, -2, 3, -3, 4, -4, 5, -6, 7, -8, 8, 9, -12, 16}).Draw(t, "fitdelta")
+		}
 	}
 	return kv
 }
@@ -90,7 +110,7 @@ func genC30(t *rapid.T) c30Case {
 			e.Set = append(e.Set, kv)
 			known = append(known, kv.K)
 		}
-		for j, n := 0, rapid.IntRange(0, 2).Draw(t, "ndel"); j < n; j++ {
+		for j, n := 0, rapid.SampledFrom([]int{0, 1, 1, 2, 2, 4}).Draw(t, "ndel"); j < n; j++ {
 			switch {
 			case len(e.Set) > 0 && rapid.IntRange(0, 3).Draw(t, "delset") == 0:
 				e.Del = append(e.Del, e.Set[rapid.IntRange(0, len(e.Set)-1).Draw(t, "delsetidx")].K)
@@ -100,7 +120,12 @@ func genC30(t *rapid.T) c30Case {
 				e.Del = append(e.Del, rapid.SampledFrom(c30Keys).Draw(t, "delpool"))
 			}
 		}
+		e.Rep = rapid.SampledFrom([]int{0, 0, 1, 2}).Draw(t, "rep")
+		e.Restart = c.File && i > 0 && rapid.IntRange(0, 5).Draw(t, "restart") == 0
 		c.Edits = append(c.Edits, e)
+	}
+	if c.File && len(c.Init) == 0 {
+		c.EmptyFile = rapid.IntRange(0, 3).Draw(t, "emptyfile")
 	}
 	return c
 }
@@ -170,6 +195,33 @@ func c30Reload(r *rig, tagsFile string) (map[string]string, error) {
 	return conf.Tags, nil
 }
 
+// c30MetaLimit is the documented limit on a node's encoded tags (memberlist's
+// MetaMaxSize).
+const c30MetaLimit = 512
+
+// c30EncodedSize is the size of the tags on the wire, computed by the harness:
+// one magic byte followed by the msgpack map in the (old-spec, raw strings)
+// format every Serf node decodes.
+func c30EncodedSize(tags map[string]string) int {
+	var buf []byte
+	if err := codec.NewEncoderBytes(&buf, &codec.MsgpackHandle{}).Encode(tags); err != nil {
+		return -1
+	}
+	return 1 + len(buf)
+}
+
+// c30Advertised decodes what the node advertises to the cluster as its tags.
+func c30Advertised(meta []byte) (map[string]string, error) {
+	if len(meta) == 0 || meta[0] != 255 {
+		return nil, fmt.Errorf("metadata does not start with the tag magic byte: % x", meta[:min(len(meta), 8)])
+	}
+	tags := map[string]string{}
+	if err := codec.NewDecoderBytes(meta[1:], &codec.MsgpackHandle{}).Decode(&tags); err != nil {
+		return nil, err
+	}
+	return tags, nil
+}
+
 func bodyC30(c c30Case, x *vkit.Ctx) {
 	dir, err := os.MkdirTemp("", "c30-")
 	if err != nil {
@@ -183,9 +235,15 @@ func bodyC30(c c30Case, x *vkit.Ctx) {
 	if c.File {
 		tagsFile = filepath.Join(dir, "tags.json")
 		o.TagsFile = tagsFile
+		var content []byte
 		if len(init) > 0 {
-			b, _ := json.Marshal(init)
-			if err := os.WriteFile(tagsFile, b, 0o600); err != nil {
+			content, _ = json.Marshal(init)
+		} else {
+			content = [][]byte{nil, []byte("{}"), []byte("null"), []byte("{}\n")}[c.EmptyFile%4]
+			x.Labelf("empty-tags-file-variant-%d", c.EmptyFile%4)
+		}
+		if content != nil {
+			if err := os.WriteFile(tagsFile, content, 0o600); err != nil {
 				x.Inconclusive("write initial tags file: " + err.Error())
 				return
 			}
@@ -195,19 +253,16 @@ func bodyC30(c c30Case, x *vkit.Ctx) {
 		o.Tags = c30Copy(init)
 		x.Label("no-tags-file")
 	}
-	r, err := newRig(o)
-	if err != nil {
-		x.Inconclusive("rig: " + err.Error())
-		return
-	}
-	defer r.close()
-	cl, err := dialRaw(r.addr())
-	if err != nil {
-		x.Inconclusive("dial: " + err.Error())
-		return
-	}
-	defer cl.close()
-
+	var r *rig
+	var cl *rawClient
+	defer func() {
+		if cl != nil {
+			cl.close()
+		}
+		if r != nil {
+			r.close()
+		}
+	}()
 	call := func(seq uint64, vals ...any) (string, bool) {
 		if err := cl.send(vals...); err != nil {
 			x.Inconclusive("write: " + err.Error())
@@ -224,14 +279,52 @@ func bodyC30(c c30Case, x *vkit.Ctx) {
 			}
 		}
 	}
-	if e, ok := call(1, hdr("handshake", 1), map[string]any{"Version": 1}); !ok || e != "" {
-		if ok {
-			x.Inconclusive("handshake refused: " + e)
+	// start (re)starts the agent on the same configuration and tags file and
+	// opens a handshaken RPC connection to it
+	start := func() bool {
+		if cl != nil {
+			cl.close()
+			cl = nil
 		}
+		if r != nil {
+			r.close()
+			r = nil
+		}
+		if r, err = newRig(o); err != nil {
+			x.Inconclusive("rig: " + err.Error())
+			return false
+		}
+		if cl, err = dialRaw(r.addr()); err != nil {
+			x.Inconclusive("dial: " + err.Error())
+			return false
+		}
+		if e, ok := call(1, hdr("handshake", 1), map[string]any{"Version": 1}); !ok || e != "" {
+			if ok {
+				x.Inconclusive("handshake refused: " + e)
+			}
+			return false
+		}
+		return true
+	}
+	if !start() {
 		return
 	}
 
 	effective := func() map[string]string { return c30Copy(r.agent.Serf().LocalMember().Tags) }
+	// advertisedCheck: what the node tells the cluster must be the tags in effect
+	advertisedCheck := func(step string, eff map[string]string) bool {
+		meta := r.agent.Serf().Memberlist().LocalNode().Meta
+		adv, err := c30Advertised(meta)
+		if err != nil {
+			x.Violationf("advertised-tags-undecodable", "%s: the metadata the node advertises does not decode as tags: %v", step, err)
+			return false
+		}
+		if !c30Equal(adv, eff) {
+			x.Violationf("advertised-tags-differ", "%s: tags in effect %s, but the node advertises %s", step, c30Show(eff), c30Show(adv))
+			return false
+		}
+		return true
+	}
 	reloadCheck := func(step string, eff map[string]string, afterReject bool) bool {
 		if !c.File {
 			return true
@@ -263,13 +356,81 @@ func bodyC30(c c30Case, x *vkit.Ctx) {
 		x.Violationf("initial-tags-differ", "configured initial tags %s, in effect %s", c30Show(init), c30Show(eff))
 		return
 	}
-	if !reloadCheck("start", init, false) {
+	if !advertisedCheck("start", init) || !reloadCheck("start", init, false) {
 		return
 	}
 
-	rejected, accepted, both, rejectedWithFile := 0, 0, 0, 0
+	rejected, accepted, both, rejectedWithFile, nearLimit := 0, 0, 0, 0, 0
 	for i, e := range c.Edits {
 		before := effective()
+		if e.Restart && c.File {
+			// the real next start: stop the agent, start it again on the same file
+			if !start() {
+				return
+			}
+			x.Label("restarted")
+			if now := effective(); !c30Equal(now, before) {
+				x.Violationf("restart-changes-tags", "before edit %d the agent was restarted on its tags file: tags in effect were %s, after the restart %s", i, c30Show(before), c30Show(now))
+				return
+			}
+			if !advertisedCheck(fmt.Sprintf("restart before edit %d", i), before) {
+				return
+			}
+		}
+		e.Set = append([]c30KV(nil), e.Set...) // the case itself stays as drawn
+		// values asked to "fit": pad the last such value of the edit so that the
+		// resulting tags encode to the requested size next to the limit
+		for j := len(e.Set) - 1; j >= 0; j-- {
+			kv := e.Set[j]
+			if kv.Fit == 0 {
+				continue
+			}
+			last := true
+			for _, later := range e.Set[j+1:] {
+				if later.K == kv.K {
+					last = false // a later entry of the same key wins
+				}
+			}
+			if !last {
+				continue
+			}
+			sized := func(pad int) int {
+				m := c30Copy(before)
+				for _, k := range e.Del {
+					delete(m, k)
+				}
+				for jj, o := range e.Set {
+					if jj == j {
+						m[o.K] = o.V + strings.Repeat("x", pad)
+					} else if o.Fit == 0 || jj > j {
+						m[o.K] = o.value()
+					} else {
+						m[o.K] = o.V
+					}
+				}
+				return c30EncodedSize(m)
+			}
+			target := c30MetaLimit + kv.Fit - 100
+			pad := 0
+			for try := 0; try < 4; try++ {
+				if d := target - sized(pad); d == 0 {
+					break
+				} else {
+					pad = max(0, pad+d)
+				}
+			}
+			// the entries before j that also asked to fit go unpadded
+			for jj := range e.Set {
+				if e.Set[jj].Fit != 0 {
+					e.Set[jj].Pad, e.Set[jj].Fit = 0, 0
+				}
+			}
+			e.Set[j].Pad = pad
+			if sized(pad) == target {
+				x.Labelf("fitted-to-limit%+d", min(max(kv.Fit-100, -3), 3))
+			}
+			break
+		}
 		set := c30Map(e.Set)
 		expected := c30Copy(before)
 		for _, k := range e.Del {
@@ -288,8 +449,27 @@ func bodyC30(c c30Case, x *vkit.Ctx) {
 		if del == nil {
 			del = []string{}
 		}
+		body := map[string]any{"Tags": set, "DeleteTags": del}
+		switch e.Rep % 3 {
+		case 1: // an empty field is left out
+			if len(set) == 0 {
+				delete(body, "Tags")
+				x.Label("tags-field-absent")
+			}
+			if len(del) == 0 {
+				delete(body, "DeleteTags")
+			}
+		case 2: // an empty field is an explicit nil
+			if len(set) == 0 {
+				body["Tags"] = nil
+				x.Label("tags-field-nil")
+			}
+			if len(del) == 0 {
+				body["DeleteTags"] = nil
+			}
+		}
 		seq := uint64(10 + i)
-		reply, ok := call(seq, hdr("tags", seq), map[string]any{"Tags": set, "DeleteTags": del})
+		reply, ok := call(seq, hdr("tags", seq), body)
 		if !ok {
 			return
 		}
@@ -297,6 +477,10 @@ func bodyC30(c c30Case, x *vkit.Ctx) {
 		step := fmt.Sprintf("edit %d (set %s, delete %q)", i, c30Show(set), e.Del)
 		if overlap {
 			both++
+		}
+		size := c30EncodedSize(expected)
+		if size > c30MetaLimit-16 && size <= c30MetaLimit+16 {
+			nearLimit++
 		}
 		if reply == "" {
 			accepted++
@@ -308,7 +492,7 @@ func bodyC30(c c30Case, x *vkit.Ctx) {
 				x.Violationf(sig, "%s accepted: previous %s, expected %s, in effect %s", step, c30Show(before), c30Show(expected), c30Show(after))
 				return
 			}
-			if meta := r.agent.Serf().Memberlist().LocalNode().Meta; len(meta) > 512 {
+			if meta := r.agent.Serf().Memberlist().LocalNode().Meta; len(meta) > c30MetaLimit {
 				x.Violationf("oversize-accepted", "%s accepted but the advertised metadata is %d bytes", step, len(meta))
 				return
 			}
@@ -321,14 +505,23 @@ func bodyC30(c c30Case, x *vkit.Ctx) {
 				x.Violationf("rejected-edit-changed-tags", "%s answered %q, yet tags went from %s to %s", step, reply, c30Show(before), c30Show(after))
 				return
 			}
-			size := 0
+			small := 0
 			for k, v := range expected {
-				size += len(k) + len(v) + 6
+				small += len(k) + len(v) + 6
 			}
-			if size < 256 {
+			if small < 256 {
 				x.Violationf("small-edit-rejected", "%s answered %q although the resulting tags %s are tiny", step, reply, c30Show(expected))
 				return
 			}
+			// the only documented ground for refusing an edit is the limit on
+			// the encoded tags: a result that fits must be accepted
+			if size >= 0 && size <= c30MetaLimit {
+				x.Violationf("fitting-edit-rejected", "%s answered %q although the resulting tags %s encode to %d bytes (limit %d)", step, reply, c30Show(expected), size, c30MetaLimit)
+				return
+			}
+		}
+		if !advertisedCheck(step+fmt.Sprintf(" answered %q", reply), after) {
+			return
 		}
 		if !reloadCheck(step+fmt.Sprintf(" answered %q", reply), after, reply != "") {
 			return
@@ -345,6 +538,9 @@ func bodyC30(c c30Case, x *vkit.Ctx) {
 	}
 	if rejectedWithFile > 0 {
 		x.Label("rejected-edit-then-reload")
+	}
+	if nearLimit > 0 {
+		x.Label("edit-within-16-bytes-of-the-limit")
 	}
 	x.NonTrivial(rejectedWithFile > 0 || both > 0)
 }
